@@ -24,9 +24,9 @@ from ..report import Collector
 
 # the keys of the worlds: plain ids, ids that look like the hidden / scratch / backup names a save might use for another id, ids
 # that contain a format suffix, glob metacharacters, the empty id.  The quick tier (depth 8) uses the first ten.
-KEYS = ['X', '.X', 'a', 'a.b', 'a.pickle', '', 'x*', 'X.tmp', '.X.tmp', 'X.pickle.tmp',
+KEYS = ['X', '.X', 'a', 'a.b', 'a.pickle', '', 'x*', 'x_', 'x?', 'X.tmp', '.X.tmp', 'X.pickle.tmp',
         'a.json', '[ab]', '.X.pickle', '~X', 'X~', 'X.part', '.X.part', 'tmpX', 'X.bak', '.X.pickle.tmp', 'X.pickle~', '_X', 'X_', '#X#']
-QUICK_KEYS = 10
+QUICK_KEYS = 12
 
 
 class FS:
